@@ -3061,12 +3061,58 @@ static Node *struct_ref(Node *node, Token *tok) {
   return node;
 }
 
-// Convert A++ to `(typeof A)((A += 1) - 1)`
+// Convert A++ to `tmp = &A, old = *tmp, *tmp = old + 1, old`
+// where tmp and old are fresh temporaries.
 static Node *new_inc_dec(Node *node, Token *tok, int addend) {
   add_type(node);
-  return new_cast(new_add(to_assign(new_add(node, new_num(addend, tok), tok)),
-                          new_num(-addend, tok), tok),
-                  node->ty);
+
+  // An atomic object is updated by the compare-and-swap loop of
+  // to_assign(). Convert A++ to `(typeof A)((A += 1) - 1)`.
+  if (node->ty->is_atomic)
+    return new_cast(new_add(to_assign(new_add(node, new_num(addend, tok), tok)),
+                            new_num(-addend, tok), tok),
+                    node->ty);
+
+  // The old value cannot in general be recomputed from the new one:
+  // the conversion to the type of A loses information if A is a _Bool,
+  // a bit-field or a floating-point object. So save it.
+  //
+  // The address of a bit-field cannot be taken. If A is a bit-field
+  // S.x, tmp points to S.
+  Member *mem = NULL;
+  Type *ty = node->ty;
+  if (node->kind == ND_MEMBER && node->member->is_bitfield) {
+    mem = node->member;
+    node = node->lhs;
+  }
+
+  Obj *tmp = new_lvar("", pointer_to(node->ty));
+  Obj *old = new_lvar("", ty);
+
+  Node *lhs[2];
+  for (int i = 0; i < 2; i++) {
+    lhs[i] = new_unary(ND_DEREF, new_var_node(tmp, tok), tok);
+    if (mem) {
+      lhs[i] = new_unary(ND_MEMBER, lhs[i], tok);
+      lhs[i]->member = mem;
+    }
+  }
+
+  Node *expr1 = new_binary(ND_ASSIGN, new_var_node(tmp, tok),
+                           new_unary(ND_ADDR, node, tok), tok);
+  Node *expr2 = new_binary(ND_ASSIGN, new_var_node(old, tok), lhs[0], tok);
+  Node *expr3 = new_binary(ND_ASSIGN, lhs[1],
+                           new_add(new_var_node(old, tok),
+                                   new_num(addend, tok), tok),
+                           tok);
+
+  return new_binary(ND_COMMA, expr1,
+                    new_binary(ND_COMMA, expr2,
+                               new_binary(ND_COMMA, expr3,
+                                          new_cast(new_var_node(old, tok), ty),
+                                          tok),
+                               tok),
+                    tok);
 }
 
 // postfix = "(" type-name ")" "{" initializer-list "}"
